@@ -3,6 +3,7 @@
   Property theorems only (helpers: Proofs/Store.lean, Proofs/Backend.lean).
 -/
 import SifVerif.Proofs.Backend
+import SifVerif.Proofs.RangesStep
 namespace Sif.C14
 
 variable (sha : Bytes → Bytes) (ph : Bytes → Option Bytes)
@@ -67,6 +68,16 @@ theorem C14_history (a b : Img) (ops : List (Op × Int)) (S : ImgSim a b) (W : W
     · intro k; simpa [runOps] using hR (k + 1)
     · intro k op' now' hk
       simpa [runOps] using hio (k + 1) op' now' (by simpa using hk)
+
+/-- the same with hypotheses on what comes in from outside only (`Op.InRange`); `Ranges` of every
+    state reached on the first backend follows (`Ranges_history`) -/
+theorem C14_history_inputs (a b : Img) (ops : List (Op × Int)) (S : ImgSim a b) (W : WF a)
+    (hne : a.rds ≠ []) (R : Ranges a) (E : EndsOK a)
+    (hin : ∀ k op now, ops[k]? = some (op, now) → Op.InRange (runOps sha ph a (ops.take k)) op now)
+    (hio : ∀ k op now, ops[k]? = some (op, now) →
+      (step sha ph (runOps sha ph a (ops.take k)) op now).2 ≠ .err .io) :
+    ImgSim (runOps sha ph a ops) (runOps sha ph b ops) :=
+  C14_history sha ph a b ops S W hne (Ranges_history sha ph a ops W R E hin hio) hio
 
 /-! ### finding D8: the one excluded call shape really differs -/
 
